@@ -375,6 +375,8 @@ static int st_apply(uint32_t op, int audit)
     const int kind = OP_KIND(op), h1 = OP_H1(op), h2 = OP_H2(op), key = OP_KEY(op);
     struct elem *e;
     int m, sizeb;
+    const void *pk0, *pk1;
+    size_t sz0, sz1;
 
     if (h1 >= C->nh) return 0;
     m = mi[h1];
@@ -385,10 +387,20 @@ static int st_apply(uint32_t op, int audit)
         if (key >= C->nk || sizeb >= C->maxlen || (e = take_free(key)) == NULL) return 0;
         vrt_state(sizeb == 0 ? "empty" : (sizeb & 1) ? "slot-left" : "slot-right");
         VRT_OP4("heap.push", "h%ld e%ld(prio %ld) size %ld", h1, e->id, key, sizeb);
+        /* peek - change - peek in ONE function: the accessors are declared in a public header, so what the caller's
+         * compiler may assume about them (an attribute, an inline body) is library behaviour too */
         cur_model = m; cur_push = e;
+        pk0 = cstl_heap_get(&H[h1]); sz0 = cstl_heap_size(&H[h1]);
         cstl_heap_push(&H[h1], e);
+        pk1 = cstl_heap_get(&H[h1]); sz1 = cstl_heap_size(&H[h1]);
         cur_model = -1; cur_push = NULL;
+        if (sizeb == 0) VRT_CHECK(pk0 == NULL, "heap.get.empty-not-null.before-push", "get on an empty heap returned %p", pk0);
+        else check_top(m, pk0, "get", ".before-push");
+        VRT_CHECK(sz0 == (size_t)sizeb && sz1 == (size_t)sizeb + 1, "heap.size.reread-around-push", "size read %zu before and %zu after a push onto %d elements", sz0, sz1, sizeb);
         model_add(m, e);
+        VRT_CHECK(pk1 != NULL, "heap.get.null-on-nonempty.reread-after-push", "get right after a push returned NULL");
+        check_top(m, pk1, "get", ".reread-after-push");
+        VRT_COUNT("get.reread-in-one-function");
         VRT_COUNT("op.push");
         if (sizeb == 0) VRT_COUNT("push.slot-root");
         else if (sizeb & 1) VRT_COUNT("push.slot-left");
@@ -425,8 +437,15 @@ static int st_apply(uint32_t op, int audit)
                   sizeb == 3 ? "last-is-root-right-child" : (sizeb & 1) ? "last-right" : "last-left");
         VRT_OP2("heap.pop", "h%ld size %ld", h1, sizeb);
         cur_model = m;
+        pk0 = cstl_heap_get(&H[h1]); sz0 = cstl_heap_size(&H[h1]);
         r = cstl_heap_pop(&H[h1]);
+        pk1 = cstl_heap_get(&H[h1]); sz1 = cstl_heap_size(&H[h1]);
         cur_model = -1;
+        if (sizeb == 0) VRT_CHECK(pk0 == NULL && pk1 == NULL, "heap.get.empty-not-null.around-pop", "get on an empty heap returned %p / %p", pk0, pk1);
+        else check_top(m, pk0, "get", ".before-pop");
+        VRT_CHECK(sz0 == (size_t)sizeb && sz1 == (size_t)(sizeb > 0 ? sizeb - 1 : 0), "heap.size.reread-around-pop", "size read %zu before and %zu after a pop from %d elements", sz0, sz1, sizeb);
+        if (sizeb > 0) VRT_CHECK(pk0 == r || ((const struct elem *)lookup(pk0))->key == ((const struct elem *)lookup(r))->key, "heap.pop.not-what-get-showed",
+                                 "pop returned an element of another priority than the get just before it");
         if (sizeb == 0) {
             VRT_CHECK(r == NULL, "heap.pop.empty-not-null", "pop on empty heap returned %p", r);
             VRT_COUNT("op.pop.empty");
@@ -437,6 +456,8 @@ static int st_apply(uint32_t op, int audit)
         check_top(m, r, "pop", "");
         e = lookup(r);
         model_del(m, e);
+        if (sizeb == 1) VRT_CHECK(pk1 == NULL, "heap.get.empty-not-null.reread-after-pop", "get right after popping the last element returned %p", pk1);
+        else { VRT_CHECK(pk1 != NULL, "heap.get.null-on-nonempty.reread-after-pop", "get right after a pop from %d elements returned NULL", sizeb); check_top(m, pk1, "get", ".reread-after-pop"); }
         give_back(e);
         VRT_COUNT("op.pop");
         if (sizeb == 1) VRT_COUNT("pop.last-is-root");
